@@ -15,6 +15,8 @@ checks of the file reader (ordering inside nodes, separators, leaf chain, equal 
 import os, re
 from . import common as C
 
+PARAM_SECTIONS = ["bpt"]
+
 MODEL_TARGETS = ["theories/Misc/BptInst.vo"]
 TRUSTED = [
     "harness/src/bpt.rs reads the B+tree file independently of the crate (layout constants restated there; compared with "
